@@ -698,18 +698,20 @@ class BTree(Generic[KT, ET]):
         cloned = self.root.maybe_cow(self.creator)
         if cloned:
             self.root = cloned
-        elt = self.root.delete(key, None, exact)
-        if elt is not None:
-            # We deleted something
-            self.size -= 1
-        # Rebalancing on the way down may have emptied the root even if the key
-        # turned out not to be present.
-        if len(self.root.elts) == 0:
-            # The root is now empty.  If there is a child, then collapse this root
-            # level and make the child the new root.
-            if not self.root.is_leaf:
-                assert len(self.root.children) == 1
-                self.root = self.root.children[0]
+        try:
+            elt = self.root.delete(key, None, exact)
+            if elt is not None:
+                # We deleted something
+                self.size -= 1
+        finally:
+            # Rebalancing on the way down may have emptied the root even if the key
+            # turned out not to be present, or an exact delete was refused.
+            if len(self.root.elts) == 0:
+                # The root is now empty.  If there is a child, then collapse this
+                # root level and make the child the new root.
+                if not self.root.is_leaf:
+                    assert len(self.root.children) == 1
+                    self.root = self.root.children[0]
         return elt
 
     def delete_key(self, key: KT) -> ET | None:
